@@ -235,8 +235,61 @@ fn run_hist<C: Codec>(case: &Value, out: &mut Out) {
     }
 }
 
+/// Two live objects related by Clone (or by `&p + &empty`, a clone of a clone, a clone that outlives its original): mutators and observers are
+/// interleaved on both, the observers with THE SAME arguments on one object and then on the other; each call is judged against that object's
+/// own model state (two plain Vecs; events carry obj = 1 / 2).  Nothing may be shared between the two objects.
+fn run_twin<C: Codec>(case: &Value, out: &mut Out) {
+    let a = arr(&case["p"]); let b = case.get("pi").map(arr);
+    let pv: Vec<C::T> = a.iter().enumerate().map(|(k, x)| C::dec(x, b.as_ref().and_then(|y| y.get(k)))).collect();
+    let xs = scalars::<C>(case, "xs"); let ss = scalars::<C>(case, "ss");
+    let (x0, s0) = (&xs[0], &ss[0]); let (xv, sv) = (C::dec(&x0.0, x0.1.as_ref()), C::dec(&s0.0, s0.1.as_ref()));
+    let vals: Vec<C::T> = scalars::<C>(case, "vals").iter().map(|v| C::dec(&v.0, v.1.as_ref())).collect();
+    let zero = <C::T as ohsl::Zero>::zero();
+    let mode = gets(case, "mode");
+    // observers with fixed arguments; `first` is observed, then `second`, with the same argument, order by order
+    let obs1 = |out: &mut Out, o: &Polynomial<C::T>, mv: &Vec<C::T>, obj: usize, step: usize, n: usize| {
+        let m = Polynomial::<C::T>::new(mv.clone());
+        let tag = |e: &mut Value| { e["step"] = json!(step); e["obj"] = json!(obj); };
+        val_op_live::<C>(case, out, "derivative_at", &m, None, Some(o), &|e| { tag(e); e["n"] = json!(n); set_sc(e, "x", x0); }, &|| o.derivative_at(xv, n));
+        poly_op_live::<C>(case, out, "derivative_n", "ref", &m, None, Some(o), &|e| { tag(e); e["n"] = json!(n); }, &|a, _| a.derivative_n(n));
+        if n == 1 { poly_op_live::<C>(case, out, "derivative", "ref", &m, None, Some(o), &tag, &|a, _| a.derivative()); }
+        if n == 0 { val_op_live::<C>(case, out, "eval", &m, None, Some(o), &|e| { tag(e); set_sc(e, "x", x0); }, &|| o.eval(xv));
+            let mut e = base::<C>(case, "degree", "ref", &m, None); tag(&mut e);
+            match guarded(|| o.degree()) { Ok(Ok(d)) => { e["ok"] = json!(true); e["d"] = json!(d); } Ok(Err(_)) => { e["ok"] = json!(false); e["d"] = json!(-1); } Err(_) => { e["panic"] = json!(true); e["ok"] = json!(false); e["d"] = json!(-1); } } out.ev(e); }
+    };
+    let both = |out: &mut Out, x: &Polynomial<C::T>, mx: &Vec<C::T>, ox: usize, y: &Polynomial<C::T>, my: &Vec<C::T>, oy: usize, step: usize| {
+        for n in [1usize, 2, 0, 1] { obs1(out, x, mx, ox, step, n); obs1(out, y, my, oy, step, n); }
+    };
+    let mut ma = pv.clone(); let mut pa = Polynomial::<C::T>::new(pv.clone());
+    if mode == "obsclone" { for n in [0usize, 1, 2] { obs1(out, &pa, &ma, 1, 0, n); } }
+    let mut pb = match mode { "addempty" => &pa + &Polynomial::<C::T>::empty(), "cloneclone" => { let c = pa.clone(); c.clone() }, _ => pa.clone() };
+    let mut mb = pv.clone();
+    if mode == "outlive" { let keep = pa.clone(); drop(pa); pa = keep.clone(); drop(keep); }
+    both(out, &pa, &ma, 1, &pb, &mb, 2, 1);
+    let mut k = 0usize; let mut nv = |old: C::T| -> C::T { k += 1; let v = vals[k % vals.len()]; if v == old { vals[(k + 1) % vals.len()] } else { v } };
+    // every mutator, alternately on the first and on the second object; after each: the edited object first, then the other
+    for (st, m) in ["set", "cset", "push", "pop", "neg", "scale", "zerotrim", "set"].iter().enumerate() {
+        let on_a = st % 2 == 0;
+        { let (o, mv) = if on_a { (&mut pa, &mut ma) } else { (&mut pb, &mut mb) };
+          match *m {
+            "set" => { let i = st % mv.len(); let v = nv(mv[i]); o[i] = v; mv[i] = v; }
+            "cset" => { let i = (st + 1) % mv.len(); let v = nv(mv[i]); o.coeffs()[i] = v; mv[i] = v; }
+            "push" => { let v = nv(zero); let v = if v == zero { vals[0] } else { v }; o.coeffs().push(v); mv.push(v); }
+            "pop" => { if mv.len() > 2 { o.coeffs().pop(); mv.pop(); } }
+            "neg" => { let t = std::mem::replace(o, Polynomial::<C::T>::empty()); *o = -t; for x in mv.iter_mut() { *x = zero - *x; } }
+            "scale" => { let t = std::mem::replace(o, Polynomial::<C::T>::empty()); *o = t * sv; for x in mv.iter_mut() { *x = *x * sv; } }
+            _ => { let l = mv.len() - 1; if l >= 1 { o[l] = zero; mv[l] = zero; o.trim(); while mv.len() > 1 && mv[mv.len() - 1] == zero { mv.pop(); } } }
+          } }
+        if on_a { both(out, &pa, &ma, 1, &pb, &mb, 2, st + 2); } else { both(out, &pb, &mb, 2, &pa, &ma, 1, st + 2); }
+    }
+    // a clone taken now, the original dropped: the clone must carry on alone
+    let pc = pb.clone(); drop(pb); let mc = mb.clone();
+    both(out, &pc, &mc, 2, &pa, &ma, 1, 20);
+}
+
 pub fn run<C: Codec>(case: &Value, out: &mut Out) {
     if gets(case, "bat") == "seq" { return run_seq::<C>(case, out); }
+    if gets(case, "bat") == "twin" { return run_twin::<C>(case, out); }
     if gets(case, "bat") == "hist" { return run_hist::<C>(case, out); }
     let p = poly_from::<C>(&case["p"], case.get("pi"));
     let q = poly_from::<C>(&case["q"], case.get("qi"));
@@ -467,6 +520,16 @@ pub fn gen(tier: &str, seed: u64, out: &mut Out) {
           if ty == "cx" { c["pi"] = json!(vec![0i64; lp]); c["qi"] = json!(coeffs(&mut rng, 9, 9, false)); c["xsi"] = json!([1]); c["ssi"] = json!([]); }
           push(out, c); } }
     }
+    // (a8) two live objects related by Clone: interleaved mutators and observers, each judged against its own model
+    for ty in tys { for mode in ["clone", "addempty", "obsclone", "cloneclone", "outlive"] { for len in [3usize, 4, 5, 7] { for rep in 0..(if quick { 1 } else { 4 }) {
+        if quick && (len == 3 || len == 5) { continue; }
+        let cxs = ty == "cx";
+        let (tx, tsc, txi, tsi) = ([2i64, -1, 1, -2][(len + rep) % 4], [2i64, -1, 3][(len + rep) % 3], [1i64, 0, -1][(len + rep) % 3], [0i64, 1][rep % 2]);
+        let mut c = json!({"ty": ty, "bat": "twin", "form": "ref", "mode": mode, "p": coeffs(&mut rng, len, 5, true), "q": [], "xs": [tx], "ss": [tsc],
+                           "vals": [4, -3, 2, -5, 1, 3, -2, 5], "beyond": 0});
+        if cxs { c["pi"] = json!(coeffs(&mut rng, len, 5, false)); c["qi"] = json!([]); c["xsi"] = json!([txi]); c["ssi"] = json!([tsi]); c["valsi"] = json!([1, 0, -2, 3, 0, -1, 2, 0]); }
+        push(out, c);
+    } } } }
     // (b) rational coefficients and scalars (Polynomial<Rat>), degree <= 4
     for _ in 0..(if quick { 40 } else { 600 }) {
         let (lp, lq) = (rng.gen_range(0..=5usize), rng.gen_range(0..=5usize));
